@@ -341,9 +341,12 @@ def run_C09(ctx):
     eval_pair(ctx, [gear_pair_case(rng) for _ in range(n)], lewis_tbl)
     eval_worm(ctx, [worm_case(rng, worm_tbl) for _ in range(n // 2)])
     unmated_cases(ctx)
+    eval_in_simulation(ctx, ctx.budget(40, 1500))
     ctx.rule = ('Lewis factor for every teeth number 10..600 (exhaustive); random spur / helical pairs and worm pairs in both '
                 'orientations: teeth, modules, widths, moduli over decades in random units, helix angles in [0, 90) deg, all four '
-                'worm pressure angles, torques of either sign, random subsets of the optional data (all 8 occur); every case is non-trivial')
+                'worm pressure angles, torques of either sign, random subsets of the optional data (all 8 occur); plus complete '
+                'simulations in which every recorded force / stress is checked against the torques recorded at the same instant; '
+                'every case is non-trivial')
 
 
 def replay_C09(ctx, case):
@@ -353,3 +356,103 @@ def replay_C09(ctx, case):
         eval_worm(ctx, [case])
     elif case.get('t') == 'lewis':
         run_lewis(ctx)
+    elif case.get('t') == 'insim':
+        ctx.note('in-simulation cases are replayed by re-running the campaign with the same seed')
+
+
+# ---------------------------------------------------------------------------------------------
+# in-simulation consistency: at every recorded instant the recorded force / stresses of a gear are
+# the documented functions of the torques recorded at the *same* instant
+# ---------------------------------------------------------------------------------------------
+
+def eval_in_simulation(ctx, n):
+    from harness import sim_props
+    sim_props.prep()
+    rng = ctx.rng
+    lewis_tbl = read_csv('lewis_factor_table.csv')
+    worm_tbl = {r[0]: r for r in read_csv('worm_gear_and_wheel_data.csv')}
+    for _ in range(n):
+        spec = gen.gen_spec(rng, random_units=rng.random() < 0.6, sl_bias=0.2, optional_data=0.9, max_stages=3)
+        op, _, _ = gen.run_op(rng, dt_si=2.0 ** -rng.randint(3, 6), steps=(3, 8), unit='sec')
+        spec['ops'] = [op]
+        tr, b = sim.simulate(spec)
+        case = {'t': 'insim', 'spec': spec}
+        if tr['build_error'] or tr['error']:
+            ctx.count('simulation not usable: ' + str(tr.get('build_error') or tr['error'][1]))
+            continue
+        ctx.case_done(case, nontrivial=True)
+        chain = sim.spec_chain(spec, tr)
+        idx_of = {e['name']: i + 1 for i, e in enumerate(chain)}
+        # mating partner and role of every element from the declared relations
+        mate, role = {}, {}
+        for r in spec['rels']:
+            if r[0] in ('gear', 'worm'):
+                a, c = spec['elems'][r[1] - 1]['name'], spec['elems'][r[2] - 1]['name']
+                mate[a], mate[c] = c, a
+                role[a], role[c] = 'master', 'slave'
+        by_name = {e['name']: e for e in spec['elems']}
+        for e in chain:
+            i = idx_of[e['name']]
+            rec = tr['els'][i]
+            if 'tangential force' not in rec:
+                continue
+            ro = role.get(e['name'])
+            if ro is None:
+                continue
+            ref = rec['load torque'] if ro == 'master' else rec['driving torque']
+            if e['type'] == 'wormgear':
+                d = sif('Length', e['d'])
+                k = math.tan(sif('Angle', e['helix']))
+            else:
+                d = e['z'] * sif('Length', e['module'])
+                k = 1.0
+            for j, Fj in enumerate(rec['tangential force']):
+                want = abs(ref[j]) / (d / 2) * k
+                if not near(Fj, want, max(want, 1e-12)):
+                    ctx.violation(case, {'why': f"{e['name']} ({e['type']}, {ro}): tangential force {Fj} at instant {j} is not |reference torque at that instant| / (d/2) = {want}"})
+                    break
+            else:
+                ctx.count('force histories checked')
+            if 'bending stress' in rec:
+                m_ = sif('Length', e['module'])
+                bw = sif('Length', e['fw'])
+                if e['type'] == 'wormwheel':
+                    worm = by_name[mate[e['name']]]
+                    dw = sif('Length', worm['d'])
+                    beta = sif('Angle', worm['helix'])
+                    pn = math.pi * dw * math.sin(beta) / e['z']
+                    beff = min(bw, 0.67 * dw)
+                    Y = worm_tbl[e['pa'][0] if e['pa'][1] == 'deg' else round(math.degrees(sif('Angle', e['pa'])), 6)][2]
+                    den = pn * beff * Y
+                else:
+                    if e['type'] == 'helical':
+                        beta = sif('Angle', e['helix'])
+                        at = math.atan(math.tan(math.radians(20)) / math.cos(beta))
+                        bb = math.atan(math.cos(at) * math.tan(beta))
+                        Y = lewis_oracle(lewis_tbl, e['z'] / math.cos(bb) ** 2 / math.cos(beta))
+                    else:
+                        Y = lewis_oracle(lewis_tbl, e['z'])
+                    den = m_ * bw * Y
+                for j, sj in enumerate(rec['bending stress']):
+                    want = rec['tangential force'][j] / den
+                    if not near(sj, want, max(want, 1e-12)):
+                        ctx.violation(case, {'why': f"{e['name']} ({e['type']}): bending stress {sj} at instant {j} is not the documented function of the force at that instant ({want})"})
+                        break
+                else:
+                    ctx.count('bending histories checked')
+            if 'contact stress' in rec:
+                other = by_name[mate[e['name']]]
+                E1, E2 = sif('Stress', e['E']), sif('Stress', other['E'])
+                d2 = other['z'] * sif('Length', other['module'])
+                beta = sif('Angle', e['helix']) if e['type'] == 'helical' else 0.0
+                a_ = math.atan(math.tan(math.radians(20)) / math.cos(beta)) if e['type'] == 'helical' else math.radians(20)
+                eeq = 2 * E1 * E2 / (E1 + E2)
+                curv = math.sin(a_) / 2 * d * d2 / (d + d2)
+                for j, sj in enumerate(rec['contact stress']):
+                    p = rec['tangential force'][j] / math.cos(a_) / (sif('Length', e['fw']) / math.cos(beta) * curv)
+                    want = K_HERTZ * math.sqrt(eeq * p)
+                    if not near(sj, want, max(want, 1e-12)):
+                        ctx.violation(case, {'why': f"{e['name']}: contact stress {sj} at instant {j} is not the documented Hertz expression of the force at that instant ({want})"})
+                        break
+                else:
+                    ctx.count('contact histories checked')
